@@ -65,6 +65,7 @@ let rec act_of (x : sexp) : act =
   | L [A "envpop"] -> AEnvPop
   | L [A "probe"; n] -> AProbe (num n)
   | L [A "call"; ac; rg; hs; c; ef; ne; body] -> ACall (num ac, num rg, handlers hs, boolean c, num ef, num ne, acts_of body)
+  | L [A "new"; ac; rg; hs; ef; ne; ini; body] -> ANew (num ac, num rg, handlers hs, num ef, num ne, racts_of ini, acts_of body)
   | L [A "callerr"; lf] -> ACallErr (boolean lf)
   | L [A "callnative"; ac; c; body] -> ACallNative (num ac, boolean c, racts_of body)
   | L [A "rust"; body] -> ARust (racts_of body)
@@ -90,6 +91,7 @@ and ract_of (x : sexp) : ract =
   | L [A "hcallnative"; ac; body] -> RHostCallNative (num ac, racts_of body)
   | L [A "hconstruct"; ac; rg; hs; ef; ne; ok; body] ->
       RHostConstruct (num ac, num rg, handlers hs, num ef, num ne, boolean ok, acts_of body)
+  | L [A "hnew"; ac; rg; hs; ef; ne; ini; body] -> RHostNew (num ac, num rg, handlers hs, num ef, num ne, racts_of ini, acts_of body)
   | L [A "hconstructnative"; ac; body] -> RHostConstructNative (num ac, racts_of body)
   | L [A "resume"; g; A k; body] ->
       RResume (num g, (match k with "next" -> KNext | "return" -> KRet | "throw" -> KThr | _ -> failwith "kind"), acts_of body)
